@@ -174,6 +174,19 @@ Ltac simp_eq E :=
   | context [?a * 1] => rewrite (N.mul_1_r a) in E
   end.
 
+(* keep only the tightest numeral bounds of the variable x *)
+Ltac tighten x :=
+  repeat match goal with
+  | H1 : x <= ?K1, H2 : x <= ?K2 |- _ =>
+    is_num K1; is_num K2;
+    let b := eval vm_compute in (K1 <=? K2) in
+    lazymatch b with true => clear H2 | false => clear H1 end
+  | H1 : ?L1 <= x, H2 : ?L2 <= x |- _ =>
+    is_num L1; is_num L2;
+    let b := eval vm_compute in (L1 <=? L2) in
+    lazymatch b with true => clear H1 | false => clear H2 end
+  end.
+
 (* record numeral bounds for x from E : x = v *)
 Ltac add_bounds x E :=
   lazymatch type of E with
@@ -191,7 +204,7 @@ Ltac add_bounds x E :=
                  | _ => let Lh := fresh "L" x in assert (Lh : L' <= x) by (rewrite E; exact pl)
                  end
     end
-  end.
+  end; tighten x.
 
 (* execute the next statement of the goal  Q (let x := v in rest) *)
 Ltac exec_let :=
@@ -227,12 +240,13 @@ Ltac split_ltb a b :=
   let H := fresh "C" in
   destruct (N.ltb_spec a b) as [H|H];
   [ first [ (* a < b : upper bound for a if b numeral, lower bound for b if a numeral *)
-            (is_num b; norm_lt H; try refresh a)
+            (is_num b; norm_lt H; try (is_var a; tighten a); try refresh a)
           | (is_num a; apply N.le_succ_l in H;
              let r := eval vm_compute in (N.succ a) in change (N.succ a) with r in H; try refresh b)
           | idtac ]
   | first [ (is_num b; try refresh a) | (is_num a; try refresh b) | idtac ] ];
-  repeat match goal with R : refreshed _ |- _ => clear R end.
+  repeat match goal with R : refreshed _ |- _ => clear R end;
+  try (is_var a; tighten a); try (is_var b; tighten b).
 
 (* execute an `if` of the goal *)
 Ltac exec_if :=
@@ -339,7 +353,8 @@ Ltac leaf_lia := euclid_pairs; subst_defs; clear_bounds; lia.
 Ltac leaf_lia_b := fix_subs; euclid_pairs; subst_defs; clear_bounds; lia.
 
 (* the leaf recipe for paths with subtractions and shifts: purely linear at the end *)
-Ltac leaf_linear := name_subs; clear_bounds; name_divmods; subst_defs; lia.
+Ltac zero_bounds := repeat match goal with H : ?x <= 0 |- _ => apply (proj1 (N.le_0_r x)) in H end.
+Ltac leaf_linear := name_subs; zero_bounds; clear_bounds; name_divmods; subst_defs; lia.
 
 (* powers of two as numerals (ring on N does not identify 2^456 with 2^228 * 2^228) *)
 Ltac num_pows := repeat match goal with |- context [2 ^ ?k] => let v := eval vm_compute in (2^k) in change (2^k) with v end.
